@@ -42,6 +42,7 @@ class QuaToSM(ConvertBase):
         sms.background = qua.background_file
         sms.sample_start = qua.song_preview_time
         sms.sample_length = 10
-        sms.offset = qua.stack().offset.min()
+        # The file offset is the time of beat 0, the first timing point
+        sms.offset = qua.bpms.first_offset() if len(qua.bpms) else 0.0
 
         return sms
